@@ -14,11 +14,13 @@ META = {
         "differ only in member order parse to equal values: the JSON validator, a function of the Value, cannot distinguish them. "
         "(ledger) the CBOR validator's claim ledger is keyed by physical pair index: claim/release of single-entry claims and the "
         "unconsumed-pair predicates are abstractly interpreted on representative ledgers and must pair exactly (release removes the "
-        "claimed pair's index and nothing else; a pair is available iff its index is not in the ledger). (nodedup) decode_map keeps "
+        "claimed pair's index and nothing else; a pair is available iff its index is not in the ledger). (occreset) the occurrence "
+        "in force for one member (its own or inherited from an enclosing group) is cleared when the member returns, in both "
+        "validators, so it cannot leak onto whichever sibling happens to come next. (nodedup) decode_map keeps "
         "every pair (decided by C11.table). Order independence of the CBOR matching search itself is not decided."),
     "assumptions": ["serde_json::Map without preserve_order is BTreeMap<String, Value> (serde_json documentation)"],
     "trusted_base": ["Cargo.lock / cargo metadata", "syn 2 parser", "lib/absint.py"],
-    "technique": "static analysis: dependency-configuration rule + abstract interpretation of the claim-ledger methods (pairing rule)",
+    "technique": "static analysis: dependency-configuration rule + abstract interpretation of the claim-ledger methods and of the member-entry visitor (pairing rules)",
 }
 
 CBOR = "src/validator/cbor.rs"
